@@ -48,6 +48,10 @@ def run(ctx):
     for n in (6, 7, 8, 9, 16, 33):
         for proto in ([1.0] * n, [0.0] * n, ["nan"] * n, [1.0] * (n - 1) + [-1.0], [(-1.0) ** i for i in range(n)], ["inf"] + [0.0] * (n - 1)):
             bursts.append(list(proto))
+    # constant bursts whose f32 mean can round away from every sample, and extreme magnitudes
+    for v in (0.9, 0.3, 0.6, -0.9, 0.7, -0.1, -0.2, 0.1, 1e-30, 3.4e38, -3.4e38, 1e38):
+        for n in (2, 3, 6, 7, 8, 11):
+            bursts.append([v] * n)
     for blk in ("Midpointer", "Wpcr"):
         for i in range(0, len(bursts), 12):
             gid += 1
